@@ -17,11 +17,11 @@ type Env struct {
 	fc        *FuncContract // contract whose clauses are being translated (macros, ghosts)
 	fx        *FnExec
 	cur       *State
-	old       *State            // function entry state, for old()
-	loopEntry *State            // for entry()
-	vars      map[string]Val    // parameters, results, quantified variables
+	old       *State         // function entry state, for old()
+	loopEntry *State         // for entry()
+	vars      map[string]Val // parameters, results, quantified variables
 	local     func(string) (Val, bool)
-	loop      *Loop             // loop whose invariant is being translated (for visited())
+	loop      *Loop // loop whose invariant is being translated (for visited())
 	pkg       *types.Package
 }
 
@@ -157,7 +157,7 @@ func (e *Env) ident(name string) Val {
 		for _, g := range e.fc.Ghosts {
 			if g == name {
 				if t, ok := e.cur.ghost["fg:"+e.fc.Key+":"+name]; ok {
-					return Val{T: t, S: "(Array Int Int)"}
+					return Val{T: t, S: e.fc.ghostSort(name)}
 				}
 				e.fail("function ghost %s not available in this state", name)
 			}
@@ -470,7 +470,7 @@ func (e *Env) call(x *ast.CallExpr) Val {
 		return Val{T: sel(eng.heapGet(e.cur, mapDom(mt)), m.T), S: "(Array " + eng.sorts.sortOf(mt.Key()) + " Bool)"}
 	case "elems":
 		s := e.tr(x.Args[0])
-		eng.regComp(setHeap, "(Array Int (Array Str Bool))")
+		eng.regSet()
 		return Val{T: sel(eng.heapGet(e.cur, setHeap), s.T), S: "(Array Str Bool)"}
 	case "visited":
 		if e.loop == nil || e.loop.enumKey == "" {
